@@ -280,6 +280,12 @@ def Server.chalf (s : Server) : Option Server :=
   if s.cclosed then none
   else some { s.emit [.halfClose] with conn := { s.conn with dead := true, buf := [] } }
 
+/-- `server.stop()` / `server.cleanup()` called by the application OUTSIDE any handler while contexts
+may still be held: every connection is released at once (TcpServer::stop), the handlers' late
+commits find `isClientValid(ct) == false` -/
+def Server.sstop (s : Server) : Server :=
+  { s.emit [.drop] with conn := { s.conn with dead := true, buf := [] } }
+
 /-- every further write on the server side of the connection fails -/
 def Server.wfail (s : Server) : Server := s.emit [.writeError]
 
@@ -292,6 +298,7 @@ inductive SrvOp
   | cclose (pre : Option (Nat × Respond)) (closeFirst : Bool)
   | chalf
   | wfail
+  | sstop
 deriving Repr
 
 def Server.step (s : Server) : SrvOp → Server
@@ -301,5 +308,6 @@ def Server.step (s : Server) : SrvOp → Server
   | .cclose pre cf => if s.poisoned then s else (s.cclose pre cf).getD s
   | .chalf => if s.poisoned then s else (s.chalf).getD s
   | .wfail => if s.poisoned then s else s.wfail
+  | .sstop => if s.poisoned then s else s.sstop
 
 end Tbox.C12
